@@ -221,6 +221,10 @@ def admin_script(w, st, res):
         kw['branch'] = st['branch']
         if st.get('from'):
             frm = st['from']
+            if frm == 'outside':         # a commit that is NOT in the latest development branch
+                k = len(w.pmap) + 1
+                w.pmap[k] = w.open_pr('bugfix/TEST-%d' % k, dst)
+                frm = w.tip('bugfix/TEST-%d' % k)
             kw['branch_from'] = w.sha[1] if frm == 'init' else frm
     r = w.api_job(kind, **kw)
     res.append(dict(step='api', kind=kind, status=r['status'], pending=r['pending']))
